@@ -62,7 +62,22 @@ var callableInterface = reflect.TypeOf((*Callable)(nil)).Elem()
 var untypedCollectionInterface = reflect.TypeOf((*b6.UntypedCollection)(nil)).Elem()
 
 // Convert v to type t, if possible. Doesn't convert functions.
+var anyType = reflect.TypeOf((*interface{})(nil)).Elem()
+
+// ValueOf returns the reflect.Value of v, as reflect.ValueOf does, except
+// that nil becomes a valid value of type interface{}, rather than the zero
+// reflect.Value, since the VM uses that for values that aren't set.
+func ValueOf(v interface{}) reflect.Value {
+	if v == nil {
+		return reflect.Zero(anyType)
+	}
+	return reflect.ValueOf(v)
+}
+
 func Convert(v reflect.Value, t reflect.Type, w b6.World) (reflect.Value, error) {
+	if !v.IsValid() {
+		return reflect.Value{}, fmt.Errorf("expected %s, found nothing", t)
+	}
 	if v.Type().AssignableTo(t) {
 		return v, nil
 	} else if v.CanConvert(t) {
@@ -143,7 +158,7 @@ func convertInterface(v reflect.Value, t reflect.Type) (reflect.Value, bool) {
 	}
 	if v.CanInterface() {
 		i := v.Interface()
-		if tt := reflect.TypeOf(i); tt.Implements(t) {
+		if tt := reflect.TypeOf(i); tt != nil && tt.Implements(t) {
 			return reflect.ValueOf(i).Convert(t), true
 		}
 	}
@@ -153,6 +168,9 @@ func convertInterface(v reflect.Value, t reflect.Type) (reflect.Value, bool) {
 // Convert v to type t, if possible. If v represents a b6 function, it'll be
 // turned into a go function that executes it in a vm.
 func ConvertWithContext(v reflect.Value, t reflect.Type, context *Context) (reflect.Value, error) {
+	if !v.IsValid() {
+		return reflect.Value{}, fmt.Errorf("expected %s, found nothing", t)
+	}
 	if t.Kind() == reflect.Func {
 		var c Callable
 		if vc, ok := v.Interface().(Callable); ok {
